@@ -30,6 +30,18 @@ def fallback_keeps_result(chk: Check, rule: str) -> None:
     chk.ob(rule, of, ok, 'the fallback is FINISHED with the SAME result and successful=False', node=built[0] if built else None, kind='same-result-unsuccessful')
 
 
+def implicit_namespace_takes_nothing_from_port(chk: Check, rule: str) -> None:
+    """A namespace created implicitly while declaring ``a.b.c`` takes nothing from the port being declared (else which of its ports is declared first decides whether
+    the namespace -- and with it every REQUIRED port below -- is enforced at all).  Shared with C11 (required inputs)."""
+    prog = chk.prog
+    cp = prog.func('process_spec.ProcessSpec._create_port')
+    kwn = cp.node.args.kwarg.arg if cp.node.args.kwarg else 'kwargs'
+    mk = [c for c in calls_in_func(cp, 'create_port_namespace')]
+    ok = len(mk) == 1 and not any(isinstance(x, ast.Name) and x.id == kwn for a_ in list(mk[0].args) + [k.value for k in mk[0].keywords] for x in ast.walk(a_))
+    chk.ob(rule, cp, ok, 'the namespaces implied by a dotted port name are created with the namespace defaults, independent of the options of the port being declared',
+           node=mk[0] if mk else None, kind='options-independent-of-port')
+
+
 def run(chk: Check) -> None:
     prog = chk.prog
     # the end-of-run validation of the outputs goes through the same loop over the declared ports as the inputs do
@@ -122,12 +134,7 @@ def run(chk: Check) -> None:
     chk.ob('DOM-validate-before-store', out, len(final) == 1 and norm(final[0].ast.targets[0].slice) == 'port_name', 'the value emitted is what is stored, under the port name', kind='stores-the-value')
     # a namespace created implicitly while declaring ``a.b.c`` takes nothing from the port being declared (else which of its ports is declared first
     # decides whether the namespace -- and with it every REQUIRED port below -- is enforced at all)
-    cp = prog.func('process_spec.ProcessSpec._create_port')
-    kwn = cp.node.args.kwarg.arg if cp.node.args.kwarg else 'kwargs'
-    mk = [c for c in calls_in_func(cp, 'create_port_namespace')]
-    ok = len(mk) == 1 and not any(isinstance(x, ast.Name) and x.id == kwn for a_ in list(mk[0].args) + [k.value for k in mk[0].keywords] for x in ast.walk(a_))
-    chk.ob('PROV-implicit-namespace', cp, ok, 'the namespaces implied by a dotted port name are created with the namespace defaults, independent of the options of the port being declared',
-           node=mk[0] if mk else None, kind='options-independent-of-port')
+    implicit_namespace_takes_nothing_from_port(chk, 'PROV-implicit-namespace')
     # OWN: nobody else mutates _outputs
     for f, node in __import__('plumpy_sa.rules', fromlist=['effective_writers']).effective_writers(prog, '_outputs'):
         ok = f.qualname in ('processes.Process.__init__', 'processes.Process.load_instance_state')
